@@ -117,8 +117,9 @@ FunCalls ==
 (* print substitutes its later arguments for the %s markers of the first one    *)
 (* (k markers, k arguments), or concatenates when there is no marker, showing    *)
 (* each argument's bound value                                                   *)
-PrArgs   == {a, b, IntT(7), IntT(-1), X, Z, Atom("hello world")}
-PrArgsQ  == {a, IntT(7), X, Z}
+(* an argument's own text may look like a marker: it is shown, never substituted into *)
+PrArgs   == {a, b, IntT(7), IntT(-1), X, Z, Atom("hello world"), Atom("%s"), Atom("100%")}
+PrArgsQ  == {a, IntT(7), X, Z, Atom("%s")}
 PrPriors == {P(a, NoT, X), P(IntT(3), NoT, b)}
 Fm(s) == Atom(s)
 PrCalls ==
